@@ -75,11 +75,39 @@ TABLE = [
     ("paychSettleDelay", "Int", "actors/paych/src/types.rs", "SETTLE_DELAY"),
     ("paychMaxLane", "Nat", "actors/paych/src/types.rs", "MAX_LANE"),
     ("paychMaxSecretSize", "Nat", "actors/paych/src/types.rs", "MAX_SECRET_SIZE"),
+    # C09 / C10 (verifreg policy; DataCap token precision comes from extra_tables)
+    ("verifregMinAllocSize", "Int", "runtime/src/runtime/policy.rs", "MINIMUM_VERIFIED_ALLOCATION_SIZE"),
+    ("verifregMinAllocTerm", "Int", "runtime/src/runtime/policy.rs", "MINIMUM_VERIFIED_ALLOCATION_TERM"),
+    ("verifregMaxAllocTerm", "Int", "runtime/src/runtime/policy.rs", "MAXIMUM_VERIFIED_ALLOCATION_TERM"),
+    ("verifregMaxAllocExpiration", "Int", "runtime/src/runtime/policy.rs", "MAXIMUM_VERIFIED_ALLOCATION_EXPIRATION"),
+    ("endOfLifeClaimDropPeriod", "Int", "runtime/src/runtime/policy.rs", "END_OF_LIFE_CLAIM_DROP_PERIOD"),
+    ("minSectorExpiration", "Int", "runtime/src/runtime/policy.rs", "MIN_SECTOR_EXPIRATION"),
+    ("maxSectorExpirationExtension", "Int", "runtime/src/runtime/policy.rs", "MAX_SECTOR_EXPIRATION_EXTENSION"),
 ]
 
 def extra_tables():
     """hook for later additions that need custom patterns (policy struct defaults etc.)"""
-    return []
+    return datacap_precision()
+
+def datacap_precision():
+    """C09: DATACAP_GRANULARITY = frc46_token::TOKEN_PRECISION (external crate, version pinned by the
+    repo's Cargo.lock; read from the vendored registry source)."""
+    import glob
+    dc = src("actors/datacap/src/lib.rs")
+    if not re.search(r"pub const DATACAP_GRANULARITY\s*:\s*u64\s*=\s*TOKEN_PRECISION\s*;", dc):
+        raise KeyError("DATACAP_GRANULARITY = TOKEN_PRECISION")
+    lock = open(os.path.join(REPO, "Cargo.lock")).read()
+    m = re.search(r'name = "frc46_token"\nversion = "([^"]+)"', lock)
+    if not m:
+        raise KeyError("frc46_token in Cargo.lock")
+    home = os.environ.get("CARGO_HOME") or os.path.expanduser("~/.cargo")
+    cands = glob.glob(os.path.join(home, "registry", "src", "*", "frc46_token-" + m.group(1), "src", "token", "mod.rs"))
+    if not cands:
+        raise KeyError("frc46_token-%s source" % m.group(1))
+    mm = re.search(CONST_RE % "TOKEN_PRECISION", open(cands[0]).read())
+    if not mm:
+        raise KeyError("TOKEN_PRECISION")
+    return ["def datacapTokenPrecision : Int := %d" % evaluate(mm.group(1))]
 
 def main():
     lines = ["-- GENERATED by tools/extract_constants.py from /repo — do not edit by hand.",
